@@ -437,6 +437,92 @@ func c14MiscScenario(id string, seed int64) core.Scenario {
 	}}
 }
 
+// c14IOShapes: YieldFromIO returns the IO's value for every way the MonadIO was configured by its owner: plain,
+// ObserveOn(h), SubscribeOn(h), both on ONE unbuffered handler (a delivery posted to that handler from its own
+// goroutine could never be taken), both on two handlers, and buffered handlers. The effect runs once per YieldFromIO
+// and the coroutine goes on with its YieldFrom requests afterwards.
+func c14IOShapes(id string) core.Scenario {
+	return core.Scenario{ID: id, Class: "Cor.YieldFromIO", Run: func(c *core.Ctx) {
+		shapes := []string{"plain", "ObserveOn(h)", "SubscribeOn(h)", "ObserveOn(h).SubscribeOn(h)", "ObserveOn(h1).SubscribeOn(h2)", "SubscribeOn(h).ObserveOn(h)", "ObserveOn(hb).SubscribeOn(hb) buffered", "FlatMap.ObserveOn(h).SubscribeOn(h)"}
+		for si, shape := range shapes {
+			for rep2 := 0; rep2 < 3; rep2++ {
+				c.Eval(1)
+				c.Distinct(id + shape)
+				h, h2 := fpgo.Handler.New(), fpgo.Handler.New()
+				hb := fpgo.Handler.NewByCh(make(chan func(), 2))
+				var effects atomic.Int32
+				io := fpgo.MonadIO.New(func() interface{} { effects.Add(1); return 40 + si })
+				switch si {
+				case 1:
+					io = io.ObserveOn(h)
+				case 2:
+					io = io.SubscribeOn(h)
+				case 3:
+					io = io.ObserveOn(h).SubscribeOn(h)
+				case 4:
+					io = io.ObserveOn(h).SubscribeOn(h2)
+				case 5:
+					io = io.SubscribeOn(h).ObserveOn(h)
+				case 6:
+					io = io.ObserveOn(hb).SubscribeOn(hb)
+				case 7:
+					io = io.FlatMap(func(v interface{}) *fpgo.MonadIODef[interface{}] { return fpgo.MonadIO.Just(v) }).ObserveOn(h).SubscribeOn(h)
+				}
+				var gen *fpgo.CorDef[interface{}]
+				gen = fpgo.Cor.New(func() {
+					for k := 0; k < 2; k++ {
+						gen.YieldRef(100 + k)
+					}
+				})
+				gen.Start()
+				done := make(chan struct{})
+				var got interface{}
+				go func() {
+					defer close(done)
+					got = fpgo.Cor.DoNotation(func(self *fpgo.CorDef[interface{}]) interface{} {
+						a := self.YieldFromIO(io)
+						b := self.YieldFrom(gen, nil)
+						var a2 interface{}
+						if rep2 > 0 {
+							a2 = self.YieldFromIO(io) // the same IO value evaluated a second time by the same coroutine
+						}
+						cc := self.YieldFrom(gen, nil)
+						return []interface{}{a, b, a2, cc}
+					})
+				}()
+				v, dump := core.AwaitOrStuck(done, 2*time.Second, 60*time.Second, director.Get().Total)
+				rep := map[string]any{"scenario": id, "io": shape, "second_evaluation": rep2 > 0}
+				wantEff := int32(1)
+				want := fmt.Sprintf("[%d 100 <nil> 101]", 40+si)
+				if rep2 > 0 {
+					wantEff = 2
+					want = fmt.Sprintf("[%d 100 %d 101]", 40+si, 40+si)
+				}
+				switch v {
+				case "done":
+					if fmt.Sprint(got) != want || effects.Load() != wantEff {
+						c.Violationf("YieldFromIO:shape:wrong-value", rep, "DoNotation{YieldFromIO(io); YieldFrom(gen); [YieldFromIO(io)]; YieldFrom(gen)} with io = New(effect).%s returned %v after %d effects, want %s after %d", shape, got, effects.Load(), want, wantEff)
+					}
+				case "stuck":
+					rep["goroutines"] = core.RepoGoroutineSummary(dump)
+					c.Violationf("YieldFromIO:shape:stuck", rep, "YieldFromIO(io) with io = New(effect).%s never returns (no library goroutine can make progress)", shape)
+				default:
+					c.Inconclusive("watchdog in " + id)
+				}
+				h.Close()
+				h2.Close()
+				hb.Close()
+				if v != "done" {
+					return
+				}
+			}
+		}
+		if c.WantSample() {
+			c.Sample(map[string]any{"scenario": id, "shapes": shapes})
+		}
+	}}
+}
+
 func c14Scenarios(c *core.Ctx, race bool) []core.Scenario {
 	var out []core.Scenario
 	n := c.Pick(200, 5000)
@@ -474,6 +560,7 @@ func c14Scenarios(c *core.Ctx, race bool) []core.Scenario {
 		out = append(out, c14Scenario(fmt.Sprintf("single-swv-%d-race%v", k, race), 1, []int{k}, 1, true, c.Seed+int64(k)))
 	}
 	out = append(out, c14MiscScenario(fmt.Sprintf("misc-race%v", race), c.Seed))
+	out = append(out, c14IOShapes(fmt.Sprintf("io-shapes-race%v", race)))
 	return out
 }
 
@@ -483,7 +570,7 @@ func init() {
 		Meta: func(c *core.Ctx) core.Meta {
 			return core.Meta{
 				Level:       "exploration",
-				Rule:        "topologies of 1..8 caller coroutines with 1..12 requests each (more than the channel buffer of 5) against one target that serves exactly the total, three generator shapes (fixed sequence, echo of the previous x, running accumulate), with and without StartWithVal, with the target held back until 6..16 callers have filled its request channel of 5 (the others block in the hand-over), PRNG yields at cor.YieldRef.taken / cor.YieldFrom.sent / cor.doCloseSafe.checked; x = (caller, i) unique and y_k unique; goroutine-local logs joined by a WaitGroup the effects signal; oracle: every x exactly once at the target, the caller of the request taken as step k received exactly y_k, per-caller positions increase, counts match; StartWithVal value reaches the first YieldRef, DoNotation / YieldFromIO values and single IO effect, YieldFromIO of an IO whose own effect calls YieldFrom through the evaluating coroutine (inline and on a Handler), IsStarted/IsDone inside and after the effect; 1..12 callers whose first YieldFrom precedes Start(); volume runs (2..4 callers x 150000 (400000) requests against an echoing target: every x the target sees belongs to the request being answered); Start()/StartWithVal() followed at once by further Start() calls (400 rounds: one instance of the effect, answers in order); stuck detector; repeated under -race (deciding for cor.go). distinct_nontrivial = distinct topologies + hook-trace signatures",
+				Rule:        "topologies of 1..8 caller coroutines with 1..12 requests each (more than the channel buffer of 5) against one target that serves exactly the total, three generator shapes (fixed sequence, echo of the previous x, running accumulate), with and without StartWithVal, with the target held back until 6..16 callers have filled its request channel of 5 (the others block in the hand-over), PRNG yields at cor.YieldRef.taken / cor.YieldFrom.sent / cor.doCloseSafe.checked; x = (caller, i) unique and y_k unique; goroutine-local logs joined by a WaitGroup the effects signal; oracle: every x exactly once at the target, the caller of the request taken as step k received exactly y_k, per-caller positions increase, counts match; StartWithVal value reaches the first YieldRef, DoNotation / YieldFromIO values and single IO effect, YieldFromIO of an IO whose own effect calls YieldFrom through the evaluating coroutine (inline and on a Handler), YieldFromIO over eight owner-configured IO shapes (plain, ObserveOn, SubscribeOn, both on ONE unbuffered handler, both on two handlers, buffered, after FlatMap; evaluated once and twice by one coroutine: value, effect count, the YieldFrom requests around it, stuck detector), IsStarted/IsDone inside and after the effect; 1..12 callers whose first YieldFrom precedes Start(); volume runs (2..4 callers x 150000 (400000) requests against an echoing target: every x the target sees belongs to the request being answered); Start()/StartWithVal() followed at once by further Start() calls (400 rounds: one instance of the effect, answers in order); stuck detector; repeated under -race (deciding for cor.go). distinct_nontrivial = distinct topologies + hook-trace signatures",
 				Assumptions: []string{"only while the target has YieldRefs left to serve (statement); YieldFrom on a finished target is property C15", "the y of the YieldRef that consumes the StartWithVal value has no recipient by design"},
 			}
 		},
